@@ -134,7 +134,7 @@ def exc_site(e: BaseException) -> str:
             break
     m = re.search(r"'([A-Za-z_][A-Za-z_0-9.]*)'", str(e))
     name = type(e).__name__
-    if name in ("AbstractReprError", "SerializationSupportClassMissing") and m:
+    if (name in ("AbstractReprError", "SerializationSupportClassMissing") or site == "serializer.abstract_repr") and m:
         site += ":" + m.group(1)
     elif name == "SerializationSupportClassMissing":
         site += ":" + str(getattr(e, "class_name", ""))
